@@ -297,6 +297,31 @@ def generate(rng, tier, pre):
         cases.append(("dec.mnemonic", [m.hex()]))
         cases.append(("dec.mnemonic", [m.hex(), b"TREZOR".hex()]))
         cases.append(("dec.mnemonic", [m.hex(), ""]))
+    # 5e. combinations: a BIE1 buffer with an UNCOMPRESSED sender key (tag 04, a valid point) at every total length
+    #     around the minimum sizes of both layouts; JSON / CBOR transactions combining the null outpoint with an empty,
+    #     one-byte and truncated script_sig (and the halves of the null outpoint)
+    upub = [b for b in samples.get("pub", []) if len(b) == 65][:1]
+    for u in upub:
+        for total in list(range(60, 112)) + [133, 134, 165]:
+            body = b"BIE1" + u + bytes((7 * i + total) % 256 for i in range(max(0, total - 69)))
+            for has in ("1", "0"):
+                add("ecies", body[:total], [has])
+            add("ecies_decrypt_msg", body[:total])
+        add("ecies", b"BIE1" + bytes([4]) + u[1:33] + bytes(32) + bytes(40), ["1"])     # 04 with an off-curve y
+    null_txid, some_txid = "00" * 32, "11" * 32
+    for txid in (null_txid, some_txid):
+        for vout in (4294967295, 0, 4294967294):
+            for ss in ("[]", '[""]', '["00"]', '["ff"]', '["OP_0"]', '["4c"]', '[[]]', 'null', '""'):
+                for extra in ("", ',"satoshis":0', ',"satoshis":18446744073709551615,"locking_script":[]'):
+                    j = ('{"version":1,"inputs":[{"prev_tx_id":"%s","vout":%d,"script_sig":%s,"sequence":0%s}],"outputs":[],"n_locktime":0}'
+                         % (txid, vout, ss, extra))
+                    add("json_tx", j.encode())
+    for b in samples.get("cbor_tx", [])[:2]:
+        # the same combination in CBOR: blank the txid text and shrink the script array of the first input in place
+        i = b.find(b"script_sig")
+        if i > 0 and b[i + 10] in range(0x81, 0x98):
+            add("cbor_tx", b[:i + 10] + b"\x80" + b[i + 11:])                       # array header -> empty array, items left behind
+            add("cbor_tx", b[:i + 10] + b"\x80")                                    # ... and truncated there
     # 6. digests of every length 0..70
     for n in range(0, 71 if not q else 40):
         for dec in ("verify_hashbuf", "sign_digest", "recover_digest"):
